@@ -15,7 +15,9 @@ import (
 	"context"
 	"errors"
 	"fmt"
+	"sync/atomic"
 	"testing"
+	"time"
 
 	"github.com/DATA-DOG/go-sqlmock"
 	"github.com/gotid/god/lib/breaker"
@@ -33,7 +35,10 @@ type c11TxCase struct {
 	BeginFault    bool   `json:"begin_fault,omitempty"`
 	StmtFault     int    `json:"stmt_fault"`         // -1 none, else 0-based ordinal of the failing statement
 	Reaction      string `json:"reaction,omitempty"` // propagate swallow panic notfound-continue: what the body does with a statement error
-	PrepFault     bool   `json:"prep_fault,omitempty"` // the fault of statement StmtFault (a prepared statement) hits Prepare, not the execution
+	// CtxMode (TransactCtx only): "" live context | cancelled-before the call | cancelled-by-body just
+	// before the body returns or panics | deadline-in-body: a 1 ms deadline the body waits out first
+	CtxMode   string `json:"ctx,omitempty"`
+	PrepFault bool   `json:"prep_fault,omitempty"` // the fault of statement StmtFault (a prepared statement) hits Prepare, not the execution
 	IterFault     bool   `json:"iter_fault,omitempty"` // the fault of statement StmtFault (a single-row query) hits the fetch of its first row, not the call
 	CommitFault   bool   `json:"commit_fault,omitempty"`
 	RollbackFault bool   `json:"rollback_fault,omitempty"`
@@ -52,22 +57,30 @@ type c11TxObs struct {
 	// single-row query whose first-row fetch failed at the driver: what the body was told
 	iterAsNotFound bool
 	iterSwallowed  bool
+	// context handed to TransactCtx: done before the call / done when the body finished
+	ctxDoneBefore bool
+	ctxDone       bool
+	asyncWaited   bool
 }
+
+// c11AsyncWaitSpent: the (single) generous wait for an asynchronous rollback has timed out once
+// in this process; later transactions are judged on what is there when the call returns.
+var c11AsyncWaitSpent atomic.Bool
 
 var (
 	c11ErrBody = errors.New("c11: body error")
 )
 
-func c11Call(api string, conn sqlx.Conn, body func(context.Context, sqlx.Session) error) error {
+func c11Call(api string, conn sqlx.Conn, ctx context.Context, body func(context.Context, sqlx.Session) error) error {
 	switch api {
 	case "sqlx.Transact":
 		return conn.Transact(func(s sqlx.Session) error { return body(context.Background(), s) })
 	case "sqlx.TransactCtx":
-		return conn.TransactCtx(context.Background(), body)
+		return conn.TransactCtx(ctx, body)
 	case "sqlc.Transact":
 		return sqlc.NewConnWithCache(conn, nil).Transact(func(s sqlx.Session) error { return body(context.Background(), s) })
 	default:
-		return sqlc.NewConnWithCache(conn, nil).TransactCtx(context.Background(), body)
+		return sqlc.NewConnWithCache(conn, nil).TransactCtx(ctx, body)
 	}
 }
 
@@ -130,16 +143,39 @@ func c11RunStmt(ctx context.Context, s sqlx.Session, kind byte, i int) error {
 
 // c11RunTx runs one transaction described by c on conn/rec and returns the observation.
 func c11RunTx(c c11TxCase, conn sqlx.Conn, rec *c11Rec) c11TxObs {
-	return c11RunTxWith(c, rec, func(body func(context.Context, sqlx.Session) error) error { return c11Call(c.API, conn, body) })
+	return c11RunTxWith(c, rec, func(ctx context.Context, body func(context.Context, sqlx.Session) error) error {
+		return c11Call(c.API, conn, ctx, body)
+	})
 }
 
 // c11RunTxWith is c11RunTx with the entry point supplied by the caller.
-func c11RunTxWith(c c11TxCase, rec *c11Rec, call func(func(context.Context, sqlx.Session) error) error) c11TxObs {
+func c11RunTxWith(c c11TxCase, rec *c11Rec, call func(context.Context, func(context.Context, sqlx.Session) error) error) c11TxObs {
 	var o c11TxObs
 	start := len(rec.snapshot())
+	cctx, cancel := context.Background(), context.CancelFunc(func() {})
+	switch c.CtxMode {
+	case "cancelled-before":
+		cctx, cancel = context.WithCancel(context.Background())
+		cancel()
+	case "cancelled-by-body":
+		cctx, cancel = context.WithCancel(context.Background())
+	case "deadline-in-body":
+		cctx, cancel = context.WithTimeout(context.Background(), time.Millisecond)
+	}
+	defer cancel()
+	o.ctxDoneBefore = cctx.Err() != nil
 	body := func(ctx context.Context, s sqlx.Session) (err error) {
 		o.bodyCalls++
 		o.bodyKind, o.bodyErr = "panic", nil // overwritten on every normal return
+		if c.CtxMode == "deadline-in-body" {
+			<-cctx.Done() // the deadline passes while the body is at work (certain to fire: no verdict depends on when)
+		}
+		defer func() {
+			if c.CtxMode == "cancelled-by-body" {
+				cancel()
+			}
+			o.ctxDone = cctx.Err() != nil
+		}()
 		for i := 0; i < c.K; i++ {
 			e := c11RunStmt(ctx, s, c.Kinds[i], i)
 			if c.IterFault && i == c.StmtFault {
@@ -179,8 +215,26 @@ func c11RunTxWith(c c11TxCase, rec *c11Rec, call func(func(context.Context, sqlx
 			return nil
 		}
 	}
-	o.pv, o.panicked = vk.Recover(func() { o.res = call(body) })
+	o.pv, o.panicked = vk.Recover(func() { o.res = call(cctx, body) })
 	o.events = rec.snapshot()[start:]
+	if o.ctxDone && !c11AsyncWaitSpent.Load() {
+		// An implementation that binds the transaction to the context (BeginTx) lets database/sql
+		// roll it back from another goroutine once the context is done; give that rollback a
+		// generous chance to reach the driver before judging "no Rollback".
+		b, bf := c11CountEv(o.events, "begin")
+		cm, _ := c11CountEv(o.events, "commit")
+		rb, _ := c11CountEv(o.events, "rollback")
+		if b == 1 && bf == 0 && cm == 0 && rb == 0 {
+			o.asyncWaited = true
+			if !vk.WaitUntil(20*time.Second, func() bool {
+				n, _ := c11CountEv(rec.snapshot()[start:], "rollback")
+				return n > 0
+			}) {
+				c11AsyncWaitSpent.Store(true)
+			}
+			o.events = rec.snapshot()[start:]
+		}
+	}
 	return o
 }
 
@@ -203,12 +257,18 @@ func c11JudgeTx(m *vk.M, desc string, o c11TxObs) (class string, violated bool) 
 	commits, commitFailed := c11CountEv(o.events, "commit")
 	rollbacks, rollbackFailed := c11CountEv(o.events, "rollback")
 	v := func(sig, format string, a ...any) (string, bool) {
+		if o.ctxDone || o.ctxDoneBefore {
+			sig += ":ctx-done" // the context given to TransactCtx was cancelled / past its deadline
+		}
 		m.Violate(sig, desc, "%s\n  result=%v panicked=%v panic=%v body=%s bodyErr=%v bodyCalls=%d\n  driver events: %s",
 			fmt.Sprintf(format, a...), o.res, o.panicked, o.pv, o.bodyKind, o.bodyErr, o.bodyCalls, c11Trace(o.events))
 		return sig, true
 	}
 	if begins == 0 && o.bodyCalls == 0 && !o.panicked && errors.Is(o.res, breaker.ErrServiceUnavailable) {
 		return "breaker-rejected", false // nothing was started: outside the transaction table
+	}
+	if begins == 0 && o.bodyCalls == 0 && o.ctxDoneBefore && !o.panicked && o.res != nil && commits+rollbacks == 0 {
+		return "begin-refused:ctx-done", false // like a failed Begin: neither Commit nor Rollback
 	}
 	if begins != 1 {
 		return v("C11:tx:begin-count", "%d Begin calls reached the driver for one Transact", begins)
@@ -246,6 +306,10 @@ func c11JudgeTx(m *vk.M, desc string, o c11TxObs) (class string, violated bool) 
 		switch {
 		case o.panicked:
 			return v("C11:tx:nil-body:panicked", "body returned nil but Transact panicked")
+		case o.ctxDone && commits == 0 && rollbacks == 1 && o.res != nil:
+			// the context was done when the body returned: refusing to commit is legitimate as
+			// long as the caller is told and the transaction is rolled back exactly once
+			return "nil-body:ctx-done:rolled-back", false
 		case rollbacks > 0:
 			return v("C11:tx:nil-body:rolled-back", "body returned nil but %d Rollback reached the driver", rollbacks)
 		case commits == 0:
@@ -262,6 +326,9 @@ func c11JudgeTx(m *vk.M, desc string, o c11TxObs) (class string, violated bool) 
 		if commitFailed == 1 {
 			return "nil-body:commit-failed", false
 		}
+		if o.ctxDone {
+			return "nil-body:committed:ctx-done", false
+		}
 		return "nil-body:committed", false
 	case "error":
 		switch {
@@ -275,11 +342,14 @@ func c11JudgeTx(m *vk.M, desc string, o c11TxObs) (class string, violated bool) 
 			return v("C11:tx:error-body:rollback-twice", "body returned an error and %d Rollbacks reached the driver", rollbacks)
 		case o.res == nil:
 			return v("C11:tx:error-body:returned-nil", "body returned an error but Transact returned nil")
-		case rollbackFailed == 0 && !errors.Is(o.res, o.bodyErr):
+		case rollbackFailed == 0 && !o.ctxDone && !errors.Is(o.res, o.bodyErr):
 			return v("C11:tx:error-body:error-replaced", "body returned %v, Rollback succeeded, Transact returned a different error", o.bodyErr)
 		}
 		if rollbackFailed == 1 {
 			return "error-body:rollback-failed", false
+		}
+		if o.ctxDone {
+			return "error-body:rolled-back:ctx-done", false
 		}
 		return "error-body:rolled-back", false
 	case "panic":
@@ -292,6 +362,9 @@ func c11JudgeTx(m *vk.M, desc string, o c11TxObs) (class string, violated bool) 
 			return v("C11:tx:panic-body:no-rollback", "body panicked and the caller learnt of it, but no Rollback reached the driver")
 		case rollbacks > 1:
 			return v("C11:tx:panic-body:rollback-twice", "body panicked and %d Rollbacks reached the driver", rollbacks)
+		}
+		if o.ctxDone {
+			return "panic-body:rolled-back:ctx-done", false
 		}
 		if o.panicked {
 			return "panic-body:rolled-back:re-panicked", false
@@ -404,6 +477,17 @@ func c11TxTable() []c11TxCase {
 			}
 		}
 	}
+	// context dimension (TransactCtx entry points, bodies of n <= 2 statements)
+	base := len(out)
+	for _, mode := range []string{"cancelled-before", "cancelled-by-body", "deadline-in-body"} {
+		for _, c := range out[:base] {
+			if c.N > 2 || (c.API != "sqlx.TransactCtx" && c.API != "sqlc.TransactCtx") {
+				continue
+			}
+			c.CtxMode = mode
+			out = append(out, c)
+		}
+	}
 	return out
 }
 
@@ -413,7 +497,7 @@ func c11TxTable() []c11TxCase {
 // first-row fetch of a single-row query j < k with reaction propagate/notfound-continue}
 // x Commit fault x Rollback fault x the four public entry points.
 func TestVerifC11TxTable(t *testing.T) {
-	m := vk.New(t, "C11", "complete table: entry point {sqlx,sqlc}.{Transact,TransactCtx} x body of n<=3 statements (exec/query/prepared) x outcome {nil,error,panic(error),panic(string),runtime panic} at every position k<=n x driver fault {none, Begin, statement j<k with body reaction propagate|swallow|panic, first-row fetch (driver.Rows.Next) of single-row query j<k with body reaction propagate|continue-on-ErrNotFound} x Commit fault x Rollback fault, on a recording database/sql driver; oracle per transaction: nil <=> one successful Commit and no Rollback, otherwise one Rollback and no Commit (one failed Commit returned; neither if Begin failed), body error returned unless Rollback failed too, panic never nil, a failed first-row fetch is reported to the body as an error that is not ErrNotFound; non-trivial = a transaction reached the driver")
+	m := vk.New(t, "C11", "complete table: entry point {sqlx,sqlc}.{Transact,TransactCtx} x body of n<=3 statements (exec/query/prepared) x outcome {nil,error,panic(error),panic(string),runtime panic} at every position k<=n x driver fault {none, Begin, statement j<k with body reaction propagate|swallow|panic, first-row fetch (driver.Rows.Next) of single-row query j<k with body reaction propagate|continue-on-ErrNotFound} x Commit fault x Rollback fault; for TransactCtx and n<=2 additionally x context {cancelled before the call, cancelled by the body just before it returns/panics, 1 ms deadline that expires during the body}; on a recording database/sql driver; oracle per transaction: nil <=> one successful Commit and no Rollback, otherwise one Rollback and no Commit (one failed Commit returned; neither if Begin failed), body error returned unless Rollback failed too, panic never nil, a failed first-row fetch is reported to the body as an error that is not ErrNotFound; non-trivial = a transaction reached the driver")
 	defer m.Done()
 	table := c11TxTable()
 	classes := map[string]int64{}
@@ -497,7 +581,7 @@ func TestVerifC11TxSqlmock(t *testing.T) {
 			}
 			var res error
 			pv, panicked := vk.Recover(func() {
-				res = c11Call(api, sqlx.NewConnFromDB(db), func(ctx context.Context, s sqlx.Session) error {
+				res = c11Call(api, sqlx.NewConnFromDB(db), context.Background(), func(ctx context.Context, s sqlx.Session) error {
 					if _, e := s.Exec("update t set v = 1"); e != nil {
 						return e
 					}
@@ -579,6 +663,9 @@ func TestVerifC11TxHistories(t *testing.T) {
 					c.IterFault = true
 					c.Reaction = []string{"propagate", "notfound-continue"}[r.Intn(2)]
 				}
+			}
+			if (c.API == "sqlx.TransactCtx" || c.API == "sqlc.TransactCtx") && r.Intn(3) == 0 {
+				c.CtxMode = []string{"cancelled-before", "cancelled-by-body", "deadline-in-body"}[r.Intn(3)]
 			}
 			c.CommitFault = r.Intn(4) == 0
 			c.RollbackFault = r.Intn(4) == 0
